@@ -465,6 +465,18 @@ func checkCrash(m *Model, fs *crashfs.FS, k int) (out outcome, err error) {
 			return out, violf("acknowledged offset commit lost: %s is back at %q after restart, but the later commit of offset %d was acknowledged at op index %d <= %d", key, got, hist[last].Offset, hist[last].Ack, k)
 		}
 	}
+	if m.Sessions > 0 {
+		// multi-session histories (sessions_test.go): outcomes of acknowledged
+		// EndTxn requests, and a new produce after the recovery
+		if err := checkOutcomes(m, s, k); err != nil {
+			return out, err
+		}
+		s2, err := produceAfterRecovery(n, m, s, ackedEnd)
+		if err != nil {
+			return out, err
+		}
+		out.snap = s2
+	}
 	return out, nil
 }
 
